@@ -30,3 +30,7 @@ mod c18;
 mod exp;
 #[cfg(all(kani, feature = "zt"))]
 mod c09;
+#[cfg(all(kani, feature = "net"))]
+mod c15;
+#[cfg(all(kani, feature = "val"))]
+mod c14;
